@@ -323,5 +323,5 @@ def shard(ctx):
             ctx.run_one(case, {"layer": "compile-time", "name": name, "call": call, "expect": "fails"})
         for name, (ctl, call) in POS_TESTS.items():
             ctx.run_one(case, {"layer": "compile-time", "name": name, "call": call, "expect": "compiles"})
-    ctx.run_given(trace_cases(ctx.state["table"]), case, label="trace")
+    ctx.run_given(trace_cases(ctx.state["table"]), case, label="trace", share=0.5)
     ctx.run_given(value_cases(), case, examples=ctx.budget["value_examples"], label="value")
